@@ -28,6 +28,15 @@ def seg_masks(shape, aperture):
     full[0, 0] = 0
     if aperture == 'mono':
         return full[None]
+    if aperture in ('seg3', 'seg4'):
+        # three / four segments (horizontal bands and a split band): the per-segment bookkeeping beyond the second segment
+        n = int(aperture[-1])
+        out = np.zeros((n,) + tuple(shape))
+        for r in range(shape[0]):
+            for c in range(shape[1]):
+                if full[r, c]:
+                    out[(r * n) // shape[0] if n == 3 else ((r * 2) // shape[0]) * 2 + (c * 2) // shape[1], r, c] = 1
+        return out[[k for k in range(n) if out[k].sum() >= 3]]
     left = full.copy(); left[:, shape[1] // 2:] = 0
     right = full.copy(); right[:, :shape[1] // 2] = 0
     return np.stack([left, right])
@@ -550,7 +559,9 @@ def t_misc(arg, acc):
                         chk_shift({'kind': 'shift', 'du': du, 'os': os_, 'z': z, 'tx': tx, 'ty': ty}, acc, seed)
     elif what == 'fit':
         for pupil in pupil_shapes(tier) + [(6, 5)]:
-            for aperture in ('mono', 'seg2'):
+            for aperture in ('mono', 'seg2', 'seg3', 'seg4'):
+                if aperture in ('seg3', 'seg4') and min(pupil) < 4:
+                    continue
                 for dx in (op.DX, op.DX2):
                     for payload in (0, 41, 42, 43):
                         for tx, ty in [(0, 0), (3e-5, 0), (0, -2e-5), (1e-5, 4e-5), (7e-9, -4e-9), (3e-12, 0)]:
